@@ -38,6 +38,19 @@ pub struct IndexStats {
     linear_scans: usize,
 }
 
+/// Index key for a value. Values that compare equal must share a key, so the
+/// two zeros (`0.0 == -0.0`) are keyed alike, also inside arrays.
+fn index_key(value: &FactValue) -> String {
+    match value {
+        FactValue::Float(f) if *f == 0.0 => "Float(0.0)".to_string(),
+        FactValue::Array(items) => {
+            let keys: Vec<String> = items.iter().map(index_key).collect();
+            format!("Array([{}])", keys.join(", "))
+        }
+        other => format!("{:?}", other),
+    }
+}
+
 impl AlphaMemoryIndex {
     /// Create new alpha memory index
     pub fn new() -> Self {
@@ -55,7 +68,7 @@ impl AlphaMemoryIndex {
         // Update all existing indexes
         for (field_name, index) in &mut self.indexes {
             if let Some(value) = fact.get(field_name) {
-                let key = format!("{:?}", value);
+                let key = index_key(value);
                 index.entry(key).or_insert_with(Vec::new).push(idx);
             }
         }
@@ -69,10 +82,15 @@ impl AlphaMemoryIndex {
     pub fn filter(&self, field: &str, value: &FactValue) -> Vec<&TypedFacts> {
         // Try index lookup first
         if let Some(index) = self.indexes.get(field) {
-            let key = format!("{:?}", value);
+            let key = index_key(value);
 
             if let Some(indices) = index.get(&key) {
-                return indices.iter().map(|&i| &self.facts[i]).collect();
+                // The key only narrows the candidates: equality decides (NaN equals nothing)
+                return indices
+                    .iter()
+                    .map(|&i| &self.facts[i])
+                    .filter(|f| f.get(field) == Some(value))
+                    .collect();
             } else {
                 return Vec::new();
             }
@@ -96,11 +114,16 @@ impl AlphaMemoryIndex {
 
         // Try index lookup first
         if let Some(index) = self.indexes.get(field) {
-            let key = format!("{:?}", value);
+            let key = index_key(value);
             self.stats.indexed_lookups += 1;
 
             if let Some(indices) = index.get(&key) {
-                return indices.iter().map(|&i| &self.facts[i]).collect();
+                // The key only narrows the candidates: equality decides (NaN equals nothing)
+                return indices
+                    .iter()
+                    .map(|&i| &self.facts[i])
+                    .filter(|f| f.get(field) == Some(value))
+                    .collect();
             } else {
                 return Vec::new();
             }
@@ -125,7 +148,7 @@ impl AlphaMemoryIndex {
         // Build index from existing facts
         for (idx, fact) in self.facts.iter().enumerate() {
             if let Some(value) = fact.get(&field) {
-                let key = format!("{:?}", value);
+                let key = index_key(value);
                 index.entry(key).or_insert_with(Vec::new).push(idx);
             }
         }
